@@ -13,7 +13,8 @@ func reg(name string, mods []string, fn func(st *State, fr *Frame, call ssa.Call
 
 func (st *State) newErr(prefix string) *Term {
 	e := st.fresh(prefix, SInt)
-	st.assume(Gt(e, IntLit(0)))
+	// a newly produced error value is not one of the package-level sentinel errors
+	st.assume(And(Gt(e, IntLit(0)), Lt(e, IntLit(900000000))))
 	return e
 }
 
@@ -196,6 +197,9 @@ func (st *State) lockEvent(kind string, mu SVal) {
 // genericIntrinsic handles families of dependency functions by shape.
 func (st *State) genericIntrinsic(fr *Frame, in ssa.CallInstruction, callee *ssa.Function, args []SVal) (SVal, bool) {
 	name := callee.Name()
+	if strings.HasPrefix(name, "ParseString") && strings.Contains(callee.String(), "participle/v2.Parser") && len(args) >= 3 {
+		return st.parseFilterIntrinsic(st.scalar(args[2]), callee.Signature.Results().At(0).Type()), true
+	}
 	// protobuf getters: nil-safe field reads, generated code (func (x *T) GetF() F)
 	if strings.HasPrefix(name, "Get") && callee.Signature.Recv() != nil && len(args) == 1 && isProtoPkg(callee) {
 		pt, ok := callee.Signature.Recv().Type().Underlying().(*types.Pointer)
@@ -217,6 +221,26 @@ func (st *State) genericIntrinsic(fr *Frame, in ssa.CallInstruction, callee *ssa
 		return st.iteVal(Neq(recv, IntLit(0)), loaded, st.zeroVal(rt), rt), true
 	}
 	return nil, false
+}
+
+// parseFilterIntrinsic: participle's generated parser for the filter grammar. Success is a function of
+// the text alone (uninterpreted predicate spec.parses); a successful parse yields a non-nil AST that is
+// well-formed in the sense of spec/filter.spec (assumed of the parser: string->AST is not verified).
+func (st *State) parseFilterIntrinsic(text *Term, resT types.Type) SVal {
+	parses := st.declareFun("spec.parses", []Sort{SStr}, SBool)
+	ok := App(SBool, parses, text)
+	ast := st.fresh("filterast", SInt)
+	err := st.fresh("parseerr", SInt)
+	st.assume(And(Ge(ast, IntLit(0)), Lt(ast, st.watermark()), Ge(err, IntLit(0))))
+	st.assume(Eq(ok, Eq(err, IntLit(0))))
+	st.assume(Eq(ok, Neq(ast, IntLit(0))))
+	astOf := st.declareFun("spec.ast_of", []Sort{SStr}, SInt)
+	st.assume(Implies(ok, Eq(ast, App(SInt, astOf, text))))
+	if _, has := st.e.specs.Funcs["wf_cond"]; has {
+		wf := st.declareFun("spec.wf_cond", []Sort{SInt}, SBool)
+		st.assume(Implies(ok, App(SBool, wf, ast)))
+	}
+	return &TupleV{[]SVal{ast, err}}
 }
 
 func isProtoPkg(fn *ssa.Function) bool {
@@ -266,6 +290,12 @@ func (st *State) specBuiltin(env *Env, e *Expr) (SVal, types.Type, bool) {
 			st.unsupported("contains() needs a slice")
 		}
 		return Select(st.memberArr(st.view(env), sv), st.scalar(b)), tBool, true
+	case "parses":
+		a, _ := st.elab(env, e.Args[0])
+		return App(SBool, st.declareFun("spec.parses", []Sort{SStr}, SBool), st.scalar(a)), tBool, true
+	case "isconstraint":
+		a, _ := st.elab(env, e.Args[0])
+		return st.errIs("constraint", st.scalar(a)), tBool, true
 	case "isnotfound":
 		a, _ := st.elab(env, e.Args[0])
 		return st.errIs("notfound", st.scalar(a)), tBool, true
